@@ -95,7 +95,7 @@ class Ctx:
     return self.P.cls(fq)
 
   # ---- recording
-  def ob(self, rule, owner, node, ok, why, construct=None, chain=None, depends=()):
+  def ob(self, rule, owner, node, ok, why, construct=None, chain=None, depends=(), definite=False):
     """Record one rule instance.  owner: FuncInfo | ClassInfo | ModuleInfo."""
     mod = owner.module if hasattr(owner, 'qualname') else owner
     fn = owner.qualname if hasattr(owner, 'qualname') else '<module>'
@@ -105,7 +105,9 @@ class Ctx:
       construct = construct[:297] + '...'
     where = loader.loc(mod, node) if isinstance(node, ast.AST) else mod.rel
     undec = None
-    if not ok and not self._robust(rule):
+    # definite: the rule has positively identified the deviating construct (a located guard / operand / statement whose
+    # normal form differs), so the verdict does not depend on the arrangement of the surrounding statements
+    if not ok and not definite and not self._robust(rule):
       undec = self._restructured(owner, mod)
       for dep in depends or ():       # other functions whose arrangement the rule reads
         if undec is None and dep is not None and hasattr(dep, 'qualname'):
